@@ -58,9 +58,9 @@ TABLE: dict[str, dict[str, str]] = {
     "C15": dict(cat="other", tech="tag-table agreement compile CLI / decompile CLI / docs, offset-renumbering rule, coroutine-id rule, docs example types vs. reader operations, exit paths; build_routines_json/read_routines interpreted on compiled programs; the __main__ blocks of both command-line modules interpreted on a virtual file system (argument vector, working directory, exit status, standard output/error, files written)",
                 text="Decides that the type tags and keys written by the compile CLI equal those read by the decompile CLI and those documented, that jump parameters are translated to list positions, that coroutine names are registered under their routine index, that documented JSON leaf types are accepted, and that no error path exits with status 0. R7 runs both commands as programs on 22 scenarios: the documented call, the structure of the printed document, compile | decompile | compile, a document with every documented routine and argument type, 17 success/failure statuses.",
                 note="reST reader for docs/cli_api_usage.rst.", ref="§4 C15"),
-    "C16": dict(cat="other", tech="grammar facts (skip channel, lexer order, alternative spellings) + position taint in the compiler + spelling tables; re-spellings of a base program compiled with the whole compiler interpreted: identical ops, routine table, marks",
+    "C16": dict(cat="other", tech="grammar facts (skip channel, lexer order, alternative spellings) + position taint in the compiler + spelling tables; re-spellings of a base program compiled with the whole compiler interpreted: identical ops, routine table, marks; the serialized ATNs of the generated lexers/parsers compared rule by rule with the .g4 files (language equality of finite automata)",
                 text="Decides that whitespace/comments/line joining are skipped, keywords precede IDENTIFIER, both label and target spellings exist and map to the same values, and that token positions and skipped tokens flow only into source-map calls and messages. ANTLR's prediction on arbitrary token juxtapositions is not decided.",
-                note="Generated lexer/parser are assumed to implement the .g4 files (name tables are compared).", ref="§4 C16"),
+                note="ANTLR's adaptive prediction is trusted; that the generated tables are the grammar's is decided (C16-R5) and is a precondition of every check that reads a .g4 file.", ref="§4 C16"),
     "C17": dict(cat="proof", tech="regex nullability, first-set totality and exponential-ambiguity (product automaton) analysis over the Pygments token table; the table run by a model of the RegexLexer loop, and through a driver override if the class has one, on sample texts",
                 text="Proof over the token table: every rule regex is non-nullable (termination), every action is a plain token type (losslessness), and in every enterable state the rules that are certain to match from their first character cover the alphabet reachable there in accepted sources (no Error token, also not by an explicit Error action); no pattern has a loop that is ambiguous before a part that can fail (catastrophic backtracking); R6 lexes 36 sample texts with the table itself.",
                 note="Trusted: pygments RegexLexer.get_tokens_unprocessed main loop, re._parser, equivalence of words() with an alternation.", ref="§4 C17"),
